@@ -473,7 +473,11 @@ class C13(Campaign):
             if isinstance(c["params"].get("masses_scaling_power"), list):
                 c["params"]["masses_scaling_power"] = c["params"]["masses_scaling_power"][:-1]
             if c["calc"].get("committee"):
-                c["calc"]["committee"]["forces_comm"] = [m[:-1] for m in c["calc"]["committee"]["forces_comm"]]
+                com = c["calc"]["committee"]
+                for d in (com["sequence"] if "sequence" in com else [com]):
+                    d["forces_comm"] = [m[:-1] for m in d["forces_comm"]]
+            if c["params"].get("update_masses") is not None:
+                c["params"]["update_masses"] = c["params"]["update_masses"][:-1]
             yield c
 
     def nontrivial(self, packed):
